@@ -314,13 +314,20 @@ impl SimCtx {
                 let dev = InterruptFromFn::new(move || q.pop_front().flatten());
                 match self.sim.device_handler.add_device(dev, &[]) { Ok(id) => id.to_string(), Err(_) => "fail".into() }
             }
-            ["rec", rd, wr, base, ports] => {
+            ["rec", rd, wr, base, ports, rest @ ..] if rest.len() <= 1 => {
                 let (Some(rd), Some(wr), Some(base)) = (b(rd), b(wr), h(base)) else { return "bad-op".into() };
                 let mut ps = vec![];
                 if *ports != "-" { for p in ports.split(',') { let Some(p) = h(p) else { return "bad-op".into() }; ps.push(p); } }
                 let log = Arc::new(Mutex::new(vec![]));
                 let dev = Recorder { rd, wr, base, nreads: 0, log: log.clone() };
-                match self.sim.device_handler.add_device(dev, &ps) { Ok(id) => { self.recorders.insert(id, log); id.to_string() } Err(_) => "fail".into() }
+                // how the device is handed over: by value, behind Arc<Mutex<_>>, behind Arc<RwLock<_>> (the crate's blanket impls)
+                let res = match rest.first().copied() {
+                    None | Some("w0") => self.sim.device_handler.add_device(dev, &ps).map_err(|_| ()),
+                    Some("w1") => self.sim.device_handler.add_device(Arc::new(Mutex::new(dev)), &ps).map_err(|_| ()),
+                    Some("w2") => self.sim.device_handler.add_device(Arc::new(std::sync::RwLock::new(dev)), &ps).map_err(|_| ()),
+                    _ => return "bad-op".into(),
+                };
+                match res { Ok(id) => { self.recorders.insert(id, log); id.to_string() } Err(_) => "fail".into() }
             }
             ["rmdev", id] => {
                 let Ok(id) = id.parse::<u16>() else { return "bad-op".into() };
